@@ -216,6 +216,8 @@ def main_for(module, argv=None) -> int:
   ap.add_argument("--replay", default=None)
   args = ap.parse_args(argv)
   use_repo_sources()
+  import logging
+  logging.getLogger("ttconv").setLevel(logging.CRITICAL + 10)
   ctx = Ctx(module.PID, module.LEVEL, args.tier, args.seed)
   if args.replay:
     with open(args.replay) as fh:
